@@ -189,6 +189,13 @@ def state_atoms(state) -> set:
     return out
 
 
+def fluent_name(f) -> str:
+    """'(name arg ...)' of a grounded fluent as the library prints it in a state, i.e. with repeated arguments repeated
+    (PDDLFunction.untyped_representation is documented as the lifted form and prints each argument name once)"""
+    rep = f.state_representation  # "(= (name args) value)"
+    return norm(rep[3:rep.rindex(" ")])
+
+
 def state_digest(state):
     """(frozenset of atoms, dict key -> value object) without forcing symbolic values."""
     return state_atoms(state), {k: f.value for k, f in state.state_fluents.items()}
